@@ -551,8 +551,11 @@ def imports_check(case: Dict[str, Any], run: Dict[str, Any], stats: C.Counter) -
             stats.inc("imports.client_not_executable_before")
             continue
         if res["status"] == "after-raised":
-            v.append({"class": "import-broken", "detail": f"{rel}: executes before formatting, raises {res['detail'][:200]} after", "props": ["C18"],
-                      "finding_key": "e3:imports:after-raised:" + res["detail"].split(":")[0]})
+            viol = {"class": "import-broken", "detail": f"{rel}: executes before formatting, raises {res['detail'][:200]} after", "props": ["C18"]}
+            key = _known_import_pattern(before, after, res["detail"])  # K4 at module level
+            if key:
+                viol["finding_key"] = key
+            v.append(viol)
             continue
         for p in res["problems"][:3]:
             viol = {"class": "import-rebinds-name", "detail": f"{rel}: {p}", "props": ["C18"]}
